@@ -13,10 +13,11 @@ import Gts.Model.OpsReg
 import Gts.Model.OpsGb
 import Gts.Model.OpsLocator
 import Gts.Model.OpsRepair
+import Gts.Model.OpsParse
 namespace Gts
 
 def evalOp (op : String) (args : List Sexp) : Option String :=
-  [evalCore, evalOrigin, evalNuc, evalCache, evalFeat, evalIO, evalMem, evalCli, evalReg, evalGb, evalLocator, evalRepair].firstM fun h => h op args
+  [evalCore, evalOrigin, evalNuc, evalCache, evalFeat, evalIO, evalMem, evalCli, evalReg, evalGb, evalLocator, evalRepair, evalParse].firstM fun h => h op args
 
 def evalLine (line : String) : String :=
   match Sexp.parseLine line with
